@@ -34,6 +34,7 @@ PROP = {
  "to_number of an empty string": ("C02", "to_number('') and to_number('null') were 0 (decimal128's UnmarshalJSON accepts both silently); found when triaging a sub-agent's remark, the reference had listed them as unspecified"),
  "a float argument equal to 2^63": ("C14", "find_first('abc','c', float64(2^63)) searched from the start (toInt's range check v > math.MaxInt is false for 2^63, int(v) wrapped to MinInt64) while uint64 / decimal 2^63 give the conversion error (also C02); found when triaging a sub-agent's remark: C14's extremes harness had excluded floats above 2^53 even when exactly representable"),
  "integer division of decimal operands floors": ("C14", "-7 // 2 was -4 for float64 operands (math.Floor) and -3 for JSON numbers, integers and decimals (truncating QuoRem): the result depended on the Go type carrying the numbers; C14's harness had restricted // to non-negative operands (remark of a sub-agent)"),
+ "a unary sign binds tighter": ("C10", "-a // b and -a % b were parsed as -(a // b) and -(a % b) (operand of a unary sign parsed with the additive binding power); reported by C10's unary harness as soon as // floored for every number type (before, only float documents could tell the groupings apart, which two sub-agents had remarked)"),
  "multi-select on a null value": ("C01", "`null` | [@, @] was null while `null` | [@] is [null]; a[*].[b] and a[*].{k: b} kept entries for null elements (also C17)"),
 }
 log = subprocess.check_output(['git','-C','/repo','log','--format=%h %s','--reverse']).decode().splitlines()
